@@ -39,9 +39,10 @@ import (
 
 type c10PReq struct {
 	Stream bool     `json:"stream"`
-	Script [][2]int `json:"script"` // per attempt (kind, code): 0 status, 1 error, 2 block, 3 panic, 4 body breaks, 5 body stalls until ctx done, 6 body too large
+	Script [][2]int `json:"script"` // per attempt (kind, code): 0 status, 1 error, 2 block, 3 panic, 4 body breaks, 5 body stalls until ctx done, 6 body too large, 7 status with a body of exactly serverMaxBodySize bytes, 8 one byte less (7/8 = plain 2-byte body when smax is 0)
 	Cancel int      `json:"cancel"` // -1, or the attempt during which the client context is cancelled
 	Clen   int      `json:"clen"`   // request body: 0 = declared length, 1 = unknown length (ContentLength -1, chunked)
+	Mutate bool     `json:"mutate"` // after the observation a "downstream filter" rewrites the response object the client got
 }
 
 type c10PIn struct {
@@ -54,8 +55,9 @@ type c10PIn struct {
 	Timeout int64     `json:"timeout"` // ns, 0 = none
 	Cb      bool      `json:"cb"`
 	Fcodes  []int     `json:"fcodes"`
-	Smax    int64     `json:"smax"` // pool serverMaxBodySize (0 = default)
-	Slow    int64     `json:"slow"` // breaker slowCallDurationThreshold in ns (0 = default 1m)
+	Smax    int64     `json:"smax"`    // pool serverMaxBodySize (0 = default)
+	Slow    int64     `json:"slow"`    // breaker slowCallDurationThreshold in ns (0 = default 1m)
+	Prelude bool      `json:"prelude"` // before the case: ANOTHER proxy fails with 503/499/408/500 and its responses get rewritten
 	Reqs    []c10PReq `json:"reqs"`
 }
 
@@ -66,6 +68,7 @@ type c10POut struct {
 	From   int     `json:"from"`   // attempt whose backend response the client would get; -1 = none / made by the gateway
 	Plen   int64   `json:"plen"`   // payload size of the response the client would get
 	Bodies int     `json:"bodies"` // attempts that received the complete request body
+	Hdrs   int     `json:"hdrs"`   // headers of a gateway-made response the client gets (a fresh one has none)
 	Cbt    int64   `json:"cbt"`    // breaker window total right after this request (-1 no breaker)
 	Cbf    int64   `json:"cbf"`    // breaker window failures right after this request
 	Gaps   []int64 `json:"gaps"`
@@ -201,6 +204,15 @@ func c10Transport(r *http.Request, client *http.Client) (*http.Response, error) 
 			lim = httpprot.DefaultMaxPayloadSize
 		}
 		return mk(code, lim+1, io.NopCloser(strings.NewReader("0123456789"))), nil
+	case 7, 8: // a successful answer whose declared length sits on / just under the size limit
+		if st.smax > 0 {
+			n := st.smax
+			if kind == 8 {
+				n--
+			}
+			return mk(code, n, io.NopCloser(strings.NewReader(strings.Repeat("x", int(n))))), nil
+		}
+		return mk(code, 2, io.NopCloser(strings.NewReader("ok"))), nil
 	case 0:
 		return &http.Response{
 			Status:        fmt.Sprintf("%d c10", code),
@@ -346,6 +358,9 @@ func c10RunPool(in c10PIn) (obs c10PObs) {
 		}
 		return -1, -1
 	}
+	if in.Prelude {
+		c10Prelude()
+	}
 	for _, rq := range in.Reqs {
 		o := c10Serve(px, in, rq)
 		o.Cbt, o.Cbf = totals()
@@ -353,6 +368,49 @@ func c10RunPool(in c10PIn) (obs c10PObs) {
 	}
 	obs.Cbt, obs.Cbf = totals()
 	return
+}
+
+// c10Mutate plays a downstream filter (Fallback, ResponseAdaptor ...) that rewrites the response
+// object of one finished request. It must never be visible to any other request.
+func c10Mutate(ctx *context.Context) {
+	defer func() { recover() }()
+	if resp, ok := ctx.GetOutputResponse().(*httpprot.Response); ok && resp != nil {
+		resp.SetStatusCode(299)
+		resp.HTTPHeader().Set("X-C10-Mutated", "1")
+		resp.SetPayload([]byte("c10 rewritten by a downstream filter"))
+	}
+}
+
+// c10Prelude: a different proxy (own pool, no policies, 1ms timeout) serves requests that fail with
+// 503, 499, 408 and 500; each failure response is then rewritten.
+func c10Prelude() {
+	pin := c10PIn{Timeout: int64(time.Millisecond), Fden: 1}
+	c10BuildMu.Lock()
+	raw := map[string]interface{}{
+		"name": "c10prelude", "kind": "Proxy",
+		"pools": []interface{}{map[string]interface{}{
+			"servers": []interface{}{map[string]interface{}{"url": "http://127.0.0.1:9096"}},
+			"timeout": "1ms",
+		}},
+	}
+	spec, err := filters.NewSpec(nil, "", raw)
+	if err != nil {
+		c10BuildMu.Unlock()
+		panic(fmt.Sprintf("c10: prelude spec rejected: %v", err))
+	}
+	px := kind.CreateInstance(spec).(*Proxy)
+	px.Init()
+	px.InjectResiliencePolicy(map[string]resilience.Policy{})
+	c10BuildMu.Unlock()
+	defer px.Close()
+	for _, rq := range []c10PReq{
+		{Script: [][2]int{{1, 0}}, Cancel: -1, Mutate: true},   // 503
+		{Script: [][2]int{{1, 0}}, Cancel: 0, Mutate: true},    // 499
+		{Script: [][2]int{{2, 0}}, Cancel: -1, Mutate: true},   // 408
+		{Script: [][2]int{{4, 200}}, Cancel: -1, Mutate: true}, // 500
+	} {
+		c10Serve(px, pin, rq)
+	}
 }
 
 func c10Serve(px *Proxy, in c10PIn, rq c10PReq) (o c10POut) {
@@ -423,8 +481,14 @@ func c10Serve(px *Proxy, in c10PIn, rq c10PReq) (o c10POut) {
 					fmt.Sscan(a, &o.From)
 				}
 				o.Plen = resp.PayloadSize()
+				if o.From < 0 {
+					o.Hdrs = len(resp.HTTPHeader())
+				}
 			}
 		}()
+	}
+	if rq.Mutate {
+		c10Mutate(ctx)
 	}
 	return
 }
@@ -469,6 +533,7 @@ func c10PGen(r *vfRand, adv bool) (in c10PIn) {
 	if r.Chance(1, 2) {
 		in.Smax = int64(r.PickInt(16, 64, 1024))
 	}
+	in.Prelude = r.Chance(1, 3)
 	for _, c := range []int{500, 502, 503, 404} {
 		if r.Chance(2, 5) {
 			in.Fcodes = append(in.Fcodes, c)
@@ -487,6 +552,7 @@ func c10PGen(r *vfRand, adv bool) (in c10PIn) {
 		if r.Chance(1, 2) {
 			rq.Clen = 1
 		}
+		rq.Mutate = r.Chance(2, 3)
 		n := max + 1
 		succ := r.Range(0, max+1) // first attempt scripted to succeed
 		if cancelCase {
@@ -503,6 +569,9 @@ func c10PGen(r *vfRand, adv bool) (in c10PIn) {
 			switch {
 			case i == succ:
 				a = [2]int{0, r.PickInt(200, 201, 204, 301, 404, 500, 503)}
+				if in.Smax > 0 && r.Chance(1, 2) {
+					a[0] = r.PickInt(7, 7, 8) // body size on / just under serverMaxBodySize
+				}
 			case in.Timeout > 0 && r.Chance(1, 4):
 				a = [2]int{2, 0}
 				if r.Chance(1, 3) {
